@@ -597,3 +597,7 @@ mod tests {
         ));
     }
 }
+
+#[cfg(all(aws_s2n_quic_verif, test))]
+#[path = "/verif/harness/core/keyset.rs"]
+mod verif;
